@@ -13,6 +13,7 @@ import (
 	"runtime/debug"
 	"strconv"
 	"time"
+	"verif/prelude"
 
 	"verif/common"
 	"verif/e1"
@@ -30,6 +31,7 @@ var (
 
 func main() {
 	debug.SetGCPercent(400) // the checks allocate many short-lived big numbers and bit slices on 16 cores
+	prelude.Scribble()      // a caller may write to what the library returned to it: nothing later may depend on that
 	if len(os.Args) < 2 {
 		fmt.Fprintln(os.Stderr, "usage: runner <ID> [--tier quick|thorough] [--work dir]")
 		os.Exit(2)
